@@ -1040,3 +1040,28 @@ Proof.
   - left; reflexivity.
   - right; left; reflexivity.
 Qed.
+
+(* separation at full strength when the detected peaks are not exactly tied *)
+Lemma find_stars_separation_strict ny nx conv thr kfp ms4 mask eb pos x1 y1 x2 y2 :
+  0 < ms4 ->
+  find_stars ny nx conv thr kfp ms4 mask eb true true true = Some pos ->
+  In (x1, y1) pos -> In (x2, y2) pos -> (x1, y1) <> (x2, y2) ->
+  (forall p q v, (px nx p, py nx p) <> (px nx q, py nx q) ->
+                 dget conv p = Some v -> dget conv q = Some v -> False) ->
+  ms4 * ms4 < 16 * ((x1 - x2) * (x1 - x2) + (y1 - y2) * (y1 - y2)).
+Proof.
+  intros Hms H H1 H2 Hne Hinj.
+  destruct (Z_lt_dec (ms4 * ms4) (16 * ((x1 - x2) * (x1 - x2) + (y1 - y2) * (y1 - y2)))) as [Hd|Hd]; [exact Hd|].
+  exfalso.
+  pose proof (find_stars_positions _ _ _ _ _ _ _ _ _ H) as [_ [Hpos _]].
+  rewrite Hpos in H1, H2.
+  apply in_map_iff in H1. destruct H1 as [p [E1 Hp]].
+  apply in_map_iff in H2. destruct H2 as [q [E2 Hq]].
+  unfold stars_fp in Hp, Hq. destruct (ms4 =? 0) eqn:E0; [lia|].
+  assert (Heq : dget conv p = dget conv q).
+  { eapply separation_or_tie_lemma; [| exact Hp | exact Hq |]; [lia|].
+    injection E1 as -> ->. injection E2 as -> ->. lia. }
+  apply cands_spec in Hp; [|apply disk_has_centre; lia].
+  destruct Hp as [_ [v [Hv _]]].
+  apply (Hinj p q v); [congruence|exact Hv|congruence].
+Qed.
